@@ -13,6 +13,7 @@ use crate::state_core::*;
 //@ const state/tick_array.rs TICK_ARRAY_SIZE_USIZE
 
 pub open spec fn IDX_BOUND() -> int { 16_000_000 }
+pub open spec fn START_BOUND() -> int { 8_000_000 }
 /// slot of a tick index in an array: floor((tick - start) / spacing)
 pub open spec fn slot_of(tick: int, start: int, spacing: int) -> int { (tick - start) / spacing }
 pub open spec fn in_range_spec(tick: int, start: int, spacing: int, shifted: bool) -> bool {
@@ -80,7 +81,7 @@ pub trait TickArrayType {
 //@ end
 //@ fn state/tick_array.rs start_tick_index in=/^pub trait TickArrayType \{/ -> r
     requires self.wf(),
-    ensures r as int == self.vstart(), -IDX_BOUND() <= r <= IDX_BOUND(),
+    ensures r as int == self.vstart(), -START_BOUND() <= r <= START_BOUND(),
 //@ end
 //@ fn state/tick_array.rs get_next_init_tick_index in=/^pub trait TickArrayType \{/ -> r
     requires self.wf(), -IDX_BOUND() <= tick_index <= IDX_BOUND(),
@@ -165,7 +166,7 @@ impl TickArrayType for TickArray {
     open spec fn vstart(&self) -> int { self.start_tick_index as int }
     open spec fn vinit(&self, slot: int) -> bool { 0 <= slot < 88 && self.ticks[slot].initialized }
     open spec fn vtick(&self, slot: int) -> Tick { self.ticks[slot] }
-    open spec fn wf(&self) -> bool { -IDX_BOUND() <= self.start_tick_index <= IDX_BOUND() }
+    open spec fn wf(&self) -> bool { -START_BOUND() <= self.start_tick_index <= START_BOUND() }
     open spec fn updatable(&self) -> bool { true }
 //@ fn state/fixed_tick_array.rs update_tick in=/^impl TickArrayType for TickArray \{/ -> r
 //@ inject at /^\{/
@@ -213,7 +214,7 @@ impl Default for Tick {
 impl ZeroedTickArray {
     pub closed spec fn ztick(&self) -> Tick { self.zeroed_tick }
 //@ fn state/zeroed_tick_array.rs new in=/^impl ZeroedTickArray \{/ -> r
-    requires -IDX_BOUND() <= start_tick_index <= IDX_BOUND(),
+    requires -START_BOUND() <= start_tick_index <= START_BOUND(),
     ensures r.wf(), r.vstart() == start_tick_index, !r.updatable(),
 //@ end
 }
@@ -221,7 +222,7 @@ impl TickArrayType for ZeroedTickArray {
     closed spec fn vstart(&self) -> int { self.start_tick_index as int }
     open spec fn vinit(&self, slot: int) -> bool { false }
     closed spec fn vtick(&self, slot: int) -> Tick { self.zeroed_tick }
-    closed spec fn wf(&self) -> bool { -IDX_BOUND() <= self.start_tick_index <= IDX_BOUND() && self.zeroed_tick == zero_tick() }
+    closed spec fn wf(&self) -> bool { -START_BOUND() <= self.start_tick_index <= START_BOUND() && self.zeroed_tick == zero_tick() }
     open spec fn updatable(&self) -> bool { false }
 //@ fn state/zeroed_tick_array.rs is_variable_size in=/^impl TickArrayType for ZeroedTickArray \{/ -> r
     ensures !r,
@@ -305,7 +306,7 @@ impl TickArrayType for DynamicTickArrayLoader {
     open spec fn vstart(&self) -> int { le_i32(sub4(self.0, 0)) as int }
     open spec fn vinit(&self, slot: int) -> bool { 0 <= slot < 88 && bit_set(self.vbitmap(), slot) }
     open spec fn vtick(&self, slot: int) -> Tick { dyn_tick_at(self.0, slot) }
-    open spec fn wf(&self) -> bool { -IDX_BOUND() <= le_i32(sub4(self.0, 0)) <= IDX_BOUND() }
+    open spec fn wf(&self) -> bool { -START_BOUND() <= le_i32(sub4(self.0, 0)) <= START_BOUND() }
     open spec fn updatable(&self) -> bool { true }
 //@ fn state/dynamic_tick_array.rs is_variable_size in=/^impl TickArrayType for DynamicTickArrayLoader \{/ -> r
     ensures r,
